@@ -81,6 +81,7 @@ func main() {
 	mapPerm := flag.Bool("mapperm", false, "fork over map iteration orders in non-harness code")
 	runGo := flag.Bool("rungo", false, "run go statements inline (synchronously)")
 	sched := flag.Bool("sched", false, "schedule go statements cooperatively: every scheduling point is a decision among the runnable goroutines")
+	preempt := flag.Int("preempt", 2, "with -sched: preemptive context switches allowed per path")
 	verbose := flag.Bool("v", false, "verbose")
 	solverBin := flag.String("solver", "z3 -in", "solver command")
 	timeout := flag.Int("timeout-ms", 20000, "per-query solver timeout")
@@ -98,7 +99,7 @@ func main() {
 
 	t0 := time.Now()
 	cfg := Config{Workers: *workers, StepBudget: *steps, ConcretizeCap: *ccap, MaxAlloc: *maxAlloc, MapPerm: *mapPerm,
-		RunGo: *runGo, Sched: *sched, Verbose: *verbose, SolverBin: strings.Fields(*solverBin), TimeoutMs: *timeout, MaxPaths: *maxPaths,
+		RunGo: *runGo, Sched: *sched, Preempt: *preempt, Verbose: *verbose, SolverBin: strings.Fields(*solverBin), TimeoutMs: *timeout, MaxPaths: *maxPaths,
 		Params: map[string]int{}, MaxViolations: *maxViol, SolverLog: *solverLog, UnbufferedAsOne: true}
 	if *timeLimit > 0 {
 		cfg.Deadline = time.Now().Add(*timeLimit)
